@@ -1,10 +1,486 @@
-"""C15: structural clauses (see DESIGN.md section 4)."""
+"""C15 training control: CSV tables (G13), hidden state, cache/persist coherence, reference
+epochs (G16/G12), sibling symmetry es<->rlr, stop rule, lr write-through (G10)."""
 from __future__ import annotations
 
-from rules import fwd as R_fwd
+import ast
+import re
+from typing import Dict, List, Optional, Set, Tuple
+
+from rules import pure as R_pure
+from sa.astutil import attr_chain, call_name, guards_of, parent_map, u
+from sa.defuse import ReachingDefs
+from sa.model import AnalysisError, own_calls, own_nodes
+from sa.norm import Normalizer, cmp_str, padd, pstr
 from .common import Ctx, plumbing
+
+MOD = "training"
+CLS = "TrainingStateController"
+PAIRS = (("es", "early_stopping"), ("rlr", "reduce_lr"))
+
+
+def _str_list(e) -> Optional[List[str]]:
+    if isinstance(e, (ast.List, ast.Tuple, ast.Set)) and all(
+            isinstance(x, ast.Constant) and isinstance(x.value, str) for x in e.elts):
+        return [x.value for x in e.elts]
+    return None
+
+
+def _row_var_of(sub: ast.Subscript) -> Optional[str]:
+    return sub.value.id if isinstance(sub.value, ast.Name) else None
 
 
 def run(ctx: Ctx):
-    plumbing(ctx, 'S1')
-    return dict(explanation='plumbing clauses only (work in progress)', decided=['S1'], not_decided=[])
+    col, pkg, res = ctx.col, ctx.pkg, ctx.res
+    rel = pkg.module(MOD).relname
+    ci = pkg.cls(f"{MOD}::{CLS}")
+    W = lambda m: f"{rel}::{CLS}.{m}"
+    hist = pkg.func(f"{MOD}::{CLS}.save_info_to_hist")
+    cache = pkg.func(f"{MOD}::{CLS}.update_cache")
+    add = pkg.func(f"{MOD}::{CLS}.add_entry")
+    upd = pkg.func(f"{MOD}::{CLS}.update_for_epoch")
+    cont = pkg.func(f"{MOD}::{CLS}.continue_training")
+    best = pkg.func(f"{MOD}::{CLS}.get_best_epoch")
+    init = pkg.func(f"{MOD}::{CLS}.__init__")
+
+    # ---------------- S1 tables -----------------------------------------------------------
+    written = None
+    for n in own_nodes(hist.node):
+        if isinstance(n, ast.Assign) and _str_list(n.value) and len(_str_list(n.value)) >= 4:
+            written = _str_list(n.value)
+    if written is None:
+        raise AnalysisError("C15: column list of save_info_to_hist not found")
+    cols = set(written)
+    col.floor("csv_columns", len(cols), 4)
+    # the row writer formats info[k] with fmt_dict[k] for the same k over the column list
+    wrs = [c for c in own_calls(hist.node) if isinstance(c.func, ast.Attribute) and c.func.attr == "writerow"]
+    ok = False
+    for c in wrs:
+        a = c.args[0] if c.args else None
+        if isinstance(a, ast.ListComp) and len(a.generators) == 1 and isinstance(a.generators[0].target, ast.Name):
+            k = a.generators[0].target.id
+            elt = a.elt
+            if (isinstance(elt, ast.Call) and isinstance(elt.func, ast.Attribute) and elt.func.attr == "format"
+                    and u(elt.func.value) == f"self.fmt_dict[{k}]" and len(elt.args) == 1
+                    and isinstance(elt.args[0], ast.Subscript) and u(elt.args[0].slice) == k):
+                ok = True
+    col.ob("G13", "S1", f"{W('save_info_to_hist')}::row=fmt[k].format(info[k])", ok,
+           "the history row is not written as fmt_dict[k].format(info[k]) over the column list "
+           "(a value written under another column's format or key)", rel, hist.line)
+    # parsed columns
+    parsed: Dict[str, Tuple[str, str]] = {}
+    rd_cache = ReachingDefs(cache.node)
+    seed_keys = None
+    for n in own_nodes(cache.node):
+        if isinstance(n, ast.Assign) and isinstance(n.value, ast.Dict) and isinstance(n.targets[0], ast.Subscript) \
+                and attr_chain(n.targets[0].value) == "self.cache_hist":
+            keys = [k.value for k in n.value.keys if isinstance(k, ast.Constant)]
+            if u(n.targets[0].slice) == "0":
+                seed_keys = keys
+                continue
+            for k, v in zip(n.value.keys, n.value.values):
+                if not isinstance(k, ast.Constant):
+                    continue
+                # value: conv(row["col"]) possibly via a local
+                der = rd_cache.derives(v)
+                srcs = [(call_name(c), s.slice.value) for c in der.calls() if call_name(c) in ("int", "float", "str")
+                        for s in ast.walk(c) if isinstance(s, ast.Subscript) and isinstance(s.slice, ast.Constant)
+                        and isinstance(s.slice.value, str)]
+                if len(srcs) != 1:
+                    parsed[k.value] = ("?", "?")
+                else:
+                    parsed[k.value] = srcs[0]
+    if not parsed or seed_keys is None:
+        raise AnalysisError("C15: parser dict / epoch-0 row of update_cache not found")
+    for k in sorted(cols | set(parsed)):
+        conv, src = parsed.get(k, (None, None))
+        want = "int" if (k == "epoch" or k.endswith("_cd")) else "float"
+        col.ob("G13", "S1", f"{W('update_cache')}::column({k})", src == k and conv == want and k in cols,
+               f"history column `{k}` is restored from column `{src}` with `{conv}` (expected `{want}` of its "
+               f"own column): a restarted controller would continue from different state", rel, cache.line,
+               sample=dict(column=k, parsed_from=src, conv=conv))
+    col.ob("G13", "S1", f"{W('update_cache')}::epoch0-row-keys", set(seed_keys) == cols,
+           f"the epoch-0 row seeds {sorted(seed_keys)}; written columns are {sorted(cols)}", rel, cache.line,
+           sample=dict(seeded=sorted(seed_keys)))
+    reserved = None
+    for n in own_nodes(add.node):
+        if isinstance(n, ast.Compare) and isinstance(n.ops[0], ast.In) and _str_list(n.comparators[0]):
+            reserved = set(_str_list(n.comparators[0]))
+    col.ob("G13", "S1", f"{W('add_entry')}::reserved-names", reserved == cols,
+           f"add_entry reserves {sorted(reserved or [])}; written columns are {sorted(cols)} (a user entry "
+           f"could shadow a control column)", rel, add.line, sample=dict(reserved=sorted(reserved or [])))
+    # seed row values come from the same-named parameters
+    seedmap = {"es_resume_cd": "early_stopping_burnin", "es_patience_cd": "early_stopping_patience",
+               "rlr_resume_cd": "reduce_lr_burnin", "rlr_patience_cd": "reduce_lr_patience"}
+    for n in own_nodes(cache.node):
+        if isinstance(n, ast.Assign) and isinstance(n.value, ast.Dict) and isinstance(n.targets[0], ast.Subscript) \
+                and u(n.targets[0].slice) == "0":
+            for k, v in zip(n.value.keys, n.value.values):
+                if isinstance(k, ast.Constant) and k.value in seedmap:
+                    col.ob("G13", "S1", f"{W('update_cache')}::seed({k.value})", u(v) == "self.params." + seedmap[k.value],
+                           f"epoch-0 `{k.value}` is seeded with `{u(v)}` (expected self.params.{seedmap[k.value]})",
+                           rel, v.lineno, sample=dict(key=k.value, value=u(v)))
+    # every literal key read from a row is a column
+    nkeys = 0
+    for f in (upd, cont, best, hist):
+        for n in own_nodes(f.node):
+            if isinstance(n, ast.Subscript) and isinstance(n.slice, ast.Constant) and isinstance(n.slice.value, str):
+                base = u(n.value)
+                if base in ("kwargs", "param_group", "optimizer.defaults", "self.fmt_dict", "row"):
+                    continue
+                nkeys += 1
+                col.ob("G13", "S1", f"{rel}::{f.qualname}::row-key({n.slice.value})", n.slice.value in cols,
+                       f"`{u(n)}` reads a key that is not a history column {sorted(cols)}", rel, n.lineno,
+                       sample=u(n), nontrivial=False)
+    col.floor("row_key_reads", nkeys, 20)
+    # format table: every column has a format assigned in __init__, ints with 'd', floats with 'e'
+    fmts: Dict[str, ast.expr] = {}
+    for n in own_nodes(init.node):
+        if isinstance(n, ast.Assign) and isinstance(n.targets[0], ast.Subscript) \
+                and u(n.targets[0].value) == "self.fmt_dict" and isinstance(n.targets[0].slice, ast.Constant):
+            fmts[n.targets[0].slice.value] = n.value
+    col.ob("G13", "S1", f"{W('__init__')}::fmt-dict-keys", set(fmts) == cols,
+           f"fmt_dict is initialised for {sorted(fmts)}; written columns are {sorted(cols)}", rel, init.line)
+
+    def fmt_kind(k, depth=0):
+        v = fmts.get(k)
+        if v is None or depth > 3:
+            return None
+        if isinstance(v, ast.Subscript) and u(v.value) == "self.fmt_dict" and isinstance(v.slice, ast.Constant):
+            return fmt_kind(v.slice.value, depth + 1)
+        s = " ".join(x.value for x in ast.walk(v) if isinstance(x, ast.Constant) and isinstance(x.value, str))
+        if re.search(r"d\}", s):
+            return "d"
+        m = re.search(r"\.(\{\}|\d+)e\}", s)
+        if m:
+            return "e-lossy"
+        if "!r" in s or re.search(r"\{\}$", s):
+            return "lossless"
+        return "other"
+
+    for k in sorted(cols):
+        want = "d" if (k == "epoch" or k.endswith("_cd")) else "e-lossy"
+        fk = fmt_kind(k)
+        col.ob("G13", "S1", f"{W('__init__')}::fmt({k})", fk == want or (want != "d" and fk == "lossless"),
+               f"column `{k}` is formatted as {fk}", rel, init.line, sample=dict(column=k, fmt=fk))
+
+    # ---------------- S2 no hidden state ------------------------------------------------
+    allowed_writers = {"__init__", "update_cache", "add_entry"}
+    nmeth = 0
+    for name, fl in ci.methods.items():
+        for f in fl:
+            nmeth += 1
+            for attr, node in R_pure.self_attr_writes(f):
+                if name in allowed_writers:
+                    continue
+                isitem = isinstance(node, ast.Subscript) and attr == "cache_hist"
+                ok = isitem and name in ("update_for_epoch", "save_info_to_hist") and u(node.slice) == "epoch"
+                col.ob("G13", "S2", f"{W(name)}::writes(self.{attr})", ok,
+                       f"{name} assigns `{u(node)}`: controller state that is not re-derivable from the history "
+                       f"file makes a restarted controller diverge", rel, node.lineno, sample=u(node))
+    col.floor("controller_methods", nmeth, 15)
+
+    # ---------------- S2' cache / persist coherence (F10) ----------------------------
+    rd = ReachingDefs(upd.node)
+    rowvar = _prev_row_var(upd, rd)
+    for k in sorted(cols):
+        if k in ("epoch", "train_met", "val_met") or k.endswith("_cd"):
+            continue  # ints round-trip exactly; metrics are on the printed grid by the property's quantifier
+        # computed stores into the row
+        stores = [n for n in own_nodes(upd.node) if isinstance(n, ast.Assign) and len(n.targets) == 1
+                  and isinstance(n.targets[0], ast.Subscript) and _row_var_of(n.targets[0]) == rowvar
+                  and isinstance(n.targets[0].slice, ast.Constant) and n.targets[0].slice.value == k]
+        computed = []
+        for s_ in stores:
+            der = rd.derives(s_.value)
+            if any(isinstance(x, ast.BinOp) for e in der.exprs for x in ast.walk(e)):
+                thru = any(isinstance(c.func, ast.Attribute) and c.func.attr == "format" for c in der.calls()) \
+                    and any(call_name(c) == "float" for c in der.calls())
+                if not thru:
+                    computed.append(s_)
+        lossy = fmt_kind(k) == "e-lossy"
+        readback = any(isinstance(n, ast.Subscript) and isinstance(n.ctx, ast.Load) and _row_var_of(n) == rowvar
+                       and isinstance(n.slice, ast.Constant) and n.slice.value == k for n in own_nodes(upd.node))
+        bad = lossy and computed and readback
+        col.ob("G13", "S2'", f"{rel}::{CLS}::column({k})::cache-vs-persist", not bad,
+               f"column `{k}` is computed by the controller, cached raw, persisted with a lossy format and read "
+               f"back from the cached row in later epochs: an uninterrupted run (raw cache) and a restarted run "
+               f"(parsed cache) diverge", rel, computed[0].lineno if computed else upd.line,
+               sample=dict(column=k, fmt=fmt_kind(k), computed=[u(c) for c in computed]))
+
+    # ---------------- S3/S4 reference epochs and sibling symmetry --------------------
+    pm = parent_map(upd.node)
+    sib = {}
+    for P, L in PAIRS:
+        sib[P] = _control_block(upd, rd, pm, P, L, rowvar)
+        b = sib[P]
+        where = W("update_for_epoch")
+        n_ = Normalizer()
+        want = ast.parse(f"epoch - self.params.{L}_patience + {rowvar}['{P}_patience_cd'] - 1", mode="eval").body
+        okref = b["ref_expr"] is not None and not padd(n_.poly(b["ref_expr"]), n_.poly(want), -1)
+        col.ob("G12", "S4", f"{where}::{P}-reference-epoch", okref,
+               f"the {L} reference epoch is `{u(b['ref_expr']) if b['ref_expr'] is not None else None}`, expected "
+               f"epoch - patience + countdown - 1", rel, b["line"], sample=u(b["ref_expr"]) if b["ref_expr"] is not None else None)
+        # S3: the countdown read there is the previous row's (no store to it reaches the use)
+        stale = False
+        if b["ref_expr"] is not None:
+            for nm in ast.walk(b["ref_expr"]):
+                if isinstance(nm, ast.Name) and nm.id == rowvar:
+                    for d in rd.defs_of(nm):
+                        t = getattr(d, "target", None)
+                        if d.kind == "item" and isinstance(t, ast.Subscript) and isinstance(t.slice, ast.Constant) \
+                                and t.slice.value in (f"{P}_patience_cd", f"{P}_resume_cd"):
+                            stale = True
+        col.ob("G16", "S3", f"{where}::{P}-reference-reads-previous-countdown", not stale,
+               f"the {L} reference epoch is computed after this epoch's countdown update (it must use the previous "
+               f"row's countdown)", rel, b["line"])
+        col.ob("G12", "S4", f"{where}::{P}-predicate", b["pred"] == f"max(REF['val_met'] - val_met, 0) < self.params.{L}_threshold",
+               f"the {L} no-improvement predicate is `{b['pred']}`", rel, b["line"], sample=b["pred"])
+        col.ob("G12", "S4", f"{where}::{P}-chain", b["chain"] == ["resume-truthy", "resume-=1", "pred", "patience-=1", "else-reset-patience"],
+               f"the {L} countdown chain is {b['chain']} (expected resume countdown, else predicate -> patience "
+               f"countdown, else reset to patience)", rel, b["line"], sample=b["chain"])
+    col.ob("G12", "S4", f"{W('update_for_epoch')}::es-rlr-alpha-equivalent",
+           sib["es"]["shape"] == sib["rlr"]["shape"],
+           f"the early-stopping and reduce-lr control blocks are not alpha-equivalent: {sib['es']['shape']} vs "
+           f"{sib['rlr']['shape']}", rel, upd.line, sample=sib["es"]["shape"])
+
+    # ---------------- S5 stop rule agreement -------------------------------------------
+    ru = _stop_rules(upd, pm)
+    rc = _stop_rules(cont, parent_map(cont.node))
+    col.ob("G13", "S5", f"{rel}::{CLS}::stop-rule(update_for_epoch==continue_training)", ru == rc and len(ru) >= 3,
+           f"update_for_epoch decides to continue by {sorted(ru)} but continue_training by {sorted(rc)}: a "
+           f"restarted run would stop at a different epoch", rel, cont.line, sample=sorted(ru))
+    want_rules = {("True", "self.params.num_epochs", False),
+                  ("epoch < self.params.num_epochs", "self.params.num_epochs", True),
+                  ("False", "self.params.early_stopping_threshold and (not ROW['es_patience_cd'])", True)}
+    col.ob("G13", "S5", f"{W('update_for_epoch')}::stop-rule", ru == want_rules,
+           f"stop rule is {sorted(ru)}", rel, upd.line, sample=sorted(ru))
+
+    # ---------------- S6 lr write-through ----------------------------------------------
+    _s6(ctx, upd, rd, pm, rowvar, rel, W("update_for_epoch"))
+    plumbing(ctx, "S0", g4=False)
+    return dict(
+        explanation=(
+            "Decides for C15: (S1) the CSV columns written, parsed (same-named column, int/float), seeded in the "
+            "epoch-0 row, reserved by add_entry, formatted, and every literal row key read are one set; (S2) no "
+            "controller state outside cache_hist is written after construction; (S2') no controller-computed float "
+            "column is cached raw while persisted lossily [known finding F10: lr]; (S3) reference epochs use the "
+            "previous row's countdown; (S4) both reference epochs normalise to epoch - patience + countdown - 1 and "
+            "the two control blocks are alpha-equivalent; (S5) update_for_epoch and continue_training apply the same "
+            "stop rule; (S6) a new learning rate is written to the row and to every optimizer param group together, "
+            "and on no other path. NOT decided: that the countdown arithmetic realises the stated rule for every "
+            "metric history; float formatting round trips."),
+        decided=["S1", "S2", "S2'", "S3", "S4", "S5", "S6"],
+        not_decided=["countdown arithmetic against the rule over all histories", "float formatting round-trips"],
+        assumptions=["csv.DictReader/writer semantics", "metrics lie on the printed grid (property quantifier)"],
+    )
+
+
+def _prev_row_var(upd, rd) -> str:
+    """The local holding the copy of the previous epoch's row (dict(self.get_info(epoch - 1, ...)))."""
+    for n in own_nodes(upd.node):
+        if isinstance(n, ast.Assign) and len(n.targets) == 1 and isinstance(n.targets[0], ast.Name):
+            for c in ast.walk(n.value):
+                if isinstance(c, ast.Call) and isinstance(c.func, ast.Attribute) and c.func.attr == "get_info" \
+                        and c.args and isinstance(c.args[0], ast.BinOp) and u(c.args[0]) == "epoch - 1":
+                    if isinstance(n.value, ast.Call) and call_name(n.value) == "dict":
+                        return n.targets[0].id
+    raise AnalysisError("C15: the copy of the previous epoch's row (dict(self.get_info(epoch - 1))) not found")
+
+
+def _control_block(upd, rd, pm, P, L, rowvar):
+    """Extract the reference-epoch expression, predicate and chain shape of one control block."""
+    out = dict(ref_expr=None, pred=None, chain=[], shape=None, line=upd.line)
+    # locate the block through its resume countdown: `if ROW['<P>_resume_cd']: ... elif <predicate>:`
+    pred_node = None
+    for n in own_nodes(upd.node):
+        if isinstance(n, ast.If) and u(n.test) == f"{rowvar}['{P}_resume_cd']" and len(n.orelse) == 1 \
+                and isinstance(n.orelse[0], ast.If):
+            pred_node = n.orelse[0].test
+    if pred_node is None or not isinstance(pred_node, ast.Compare):
+        raise AnalysisError(f"C15: the {L} control block (if row['{P}_resume_cd'] ... elif predicate) was not found")
+    out["line"] = pred_node.lineno
+    refvar = None
+    for x in ast.walk(pred_node):
+        if isinstance(x, ast.Subscript) and u(x.slice) == "'val_met'" and isinstance(x.value, ast.Name):
+            refvar = x.value
+    if refvar is None:
+        out["pred"] = u(pred_node)
+        out["shape"] = (None, out["pred"], ())
+        return out
+    out["pred"] = u(pred_node).replace(refvar.id + "[", "REF[")
+    for d in rd.defs_of(refvar):
+        v = d.value
+        if isinstance(v, ast.Call) and isinstance(v.func, ast.Attribute) and v.func.attr == "get_info" and v.args:
+            e = v.args[0]
+            if isinstance(e, ast.Name):
+                ds = list(rd.defs_of(e))
+                if len(ds) == 1 and ds[0].value is not None:
+                    e = ds[0].value
+            out["ref_expr"] = e
+    # the chain: the If statement whose elif test is the predicate
+    st = pm.get(pred_node)
+    while st is not None and not isinstance(st, ast.If):
+        st = pm.get(st)
+    top = pm.get(st)
+    chain = []
+    if isinstance(top, ast.If) and st in top.orelse:
+        rk, pk = f"{rowvar}['{P}_resume_cd']", f"{rowvar}['{P}_patience_cd']"
+        if u(top.test) == rk:
+            chain.append("resume-truthy")
+        if any(isinstance(s, ast.AugAssign) and u(s.target) == rk and isinstance(s.op, ast.Sub) and u(s.value) == "1"
+               for s in top.body) and len(top.body) == 1:
+            chain.append("resume-=1")
+        chain.append("pred")
+        if st.body and isinstance(st.body[0], ast.AugAssign) and u(st.body[0].target) == pk \
+                and isinstance(st.body[0].op, ast.Sub) and u(st.body[0].value) == "1":
+            chain.append("patience-=1")
+        if len(st.orelse) == 1 and isinstance(st.orelse[0], ast.Assign) and u(st.orelse[0].targets[0]) == pk \
+                and u(st.orelse[0].value) == f"self.params.{L}_patience":
+            chain.append("else-reset-patience")
+    out["chain"] = chain
+    ren = lambda s: s.replace(P + "_", "X_").replace(L + "_", "XX_").replace(rowvar, "ROW")
+    out["shape"] = (ren(pstr(Normalizer().poly(out["ref_expr"]))) if out["ref_expr"] is not None else None,
+                    ren(out["pred"] or ""), tuple(chain))
+    return out
+
+
+def _stop_rules(f, pm) -> Set[Tuple[str, str, bool]]:
+    """(assigned value, innermost guard) pairs for the returned continue-flag."""
+    rets = [n for n in own_nodes(f.node) if isinstance(n, ast.Return) and isinstance(n.value, ast.Name)]
+    if not rets:
+        raise AnalysisError(f"C15: {f.qualname} does not return a flag variable")
+    flag = rets[-1].value.id
+    rowvars = set()
+    for n in own_nodes(f.node):
+        if isinstance(n, ast.Assign) and len(n.targets) == 1 and isinstance(n.targets[0], ast.Name):
+            if any(isinstance(c, ast.Call) and isinstance(c.func, ast.Attribute) and c.func.attr == "get_info"
+                   for c in ast.walk(n.value)):
+                rowvars.add(n.targets[0].id)
+    out = set()
+    for n in own_nodes(f.node):
+        if isinstance(n, ast.Assign) and len(n.targets) == 1 and isinstance(n.targets[0], ast.Name) \
+                and n.targets[0].id == flag:
+            gs = guards_of(pm, n)
+            g, pol = "True", True
+            if gs:
+                t, pol = gs[-1]
+                while isinstance(t, ast.UnaryOp) and isinstance(t.op, ast.Not):
+                    t, pol = t.operand, not pol
+                g = u(t)
+            for rv in rowvars:
+                g = g.replace(rv + "[", "ROW[")
+            out.add((u(n.value), g, pol))
+    return out
+
+
+def _s6(ctx, upd, rd, pm, rowvar, rel, where):
+    col = ctx.col
+    row_lr = [n for n in own_nodes(upd.node) if isinstance(n, ast.Assign) and len(n.targets) == 1
+              and u(n.targets[0]) == f"{rowvar}['lr']"]
+    opt_lr = [n for n in own_nodes(upd.node) if isinstance(n, ast.Assign) and len(n.targets) == 1
+              and isinstance(n.targets[0], ast.Subscript) and u(n.targets[0].slice) == "'lr'"
+              and u(n.targets[0].value) != rowvar]
+    col.floor("row_lr_stores", len(row_lr), 2)
+    col.count("optimizer_lr_stores", len(opt_lr))
+    # the optimizer store: for every param group, same value as the row store in the same branch
+    for o in opt_lr:
+        loop = pm.get(o)
+        okloop = isinstance(loop, ast.For) and u(loop.iter) == "optimizer.param_groups" \
+            and isinstance(loop.target, ast.Name) and u(o.targets[0].value) == loop.target.id
+        block = pm.get(loop) if okloop else None
+        sibs = [s for s in getattr(block, "body", []) if s in row_lr] if block is not None else []
+        ok = okloop and len(sibs) == 1 and u(sibs[0].value) == u(o.value)
+        col.ob("G10", "S6", f"{where}::lr-write-through", ok,
+               f"`{u(o)}` is not paired, in the same branch and for every param group, with `{rowvar}['lr'] = "
+               f"{u(o.value)}`: the optimizer and the recorded history disagree about the learning rate", rel,
+               o.lineno, sample=dict(optimizer_store=u(o), row_stores=[u(s) for s in sibs]))
+    for r in row_lr:
+        gs = [(u(t), pol) for t, pol in guards_of(pm, r)]
+        if any("is None" in g and pol for g, pol in gs):
+            okr = u(r.value) == "optimizer.defaults['lr']"
+            col.ob("G10", "S6", f"{where}::lr-initial-fill", okr,
+                   f"the unknown initial rate is filled with `{u(r.value)}` (expected the optimizer default)", rel,
+                   r.lineno, sample=u(r))
+            continue
+        block = pm.get(r)
+        has_opt = any(isinstance(s, ast.For) and any(o in list(ast.walk(s)) for o in opt_lr)
+                      for s in getattr(block, "body", []))
+        col.ob("G10", "S6", f"{where}::row-lr-change-reaches-optimizer", has_opt,
+               f"`{u(r)}` changes the recorded rate without writing it into the optimizer", rel, r.lineno,
+               sample=u(r))
+        # new = old * factor, old = row['lr'], guarded by old - new > 10 ** log10_epsilon
+        der = rd.derives(r.value)
+        n_ = Normalizer(subst={d.name: d.value for d in der.defs if d.kind == "assign" and d.value is not None
+                               and d.name != rowvar and not isinstance(d.value, ast.Call)})
+        want = ast.parse(f"{rowvar}['lr'] * self.params.reduce_lr_factor", mode="eval").body
+        okv = not padd(n_.poly(r.value), Normalizer().poly(want), -1)
+        col.ob("G12", "S6", f"{where}::new-lr=old*factor", okv,
+               f"the new rate `{u(r.value)}` does not normalise to row['lr'] * reduce_lr_factor", rel, r.lineno,
+               sample=pstr(n_.poly(r.value)))
+        gtxt = [g for g, pol in gs if pol]
+        okg = any("rlr_patience_cd" in g for g in gtxt)
+        col.ob("G10", "S6", f"{where}::lr-change-only-when-patience-exhausted", okg,
+               f"the rate changes under guards {gtxt}; expected inside 'not row[rlr_patience_cd]'", rel, r.lineno,
+               sample=gtxt)
+
+
+MANIFEST = dict(
+    level_text=(
+        "Static table/dataflow analysis of TrainingStateController (no execution): agreement of the CSV "
+        "column tables (written / parsed with the right type from the same-named column / seeded / reserved / "
+        "formatted / read), absence of controller state outside the cached history, cache-vs-persist coherence "
+        "of controller-computed float columns, reference-epoch expressions in linear normal form reading the "
+        "previous row, alpha-equivalence of the early-stopping and reduce-lr blocks, equality of the stop rule "
+        "in update_for_epoch and continue_training, and learning-rate write-through. These are necessary "
+        "conditions for 'decisions survive restarts'; the countdown arithmetic against the stated rule over all "
+        "metric histories is not decided."),
+    level_note="Trusted: python ast, csv module semantics. Known finding F10 (lr cached raw, persisted with "
+               "'{:.4e}') is listed in known_findings.json.",
+    technique="static analysis: literal-table extraction and set comparison, reaching definitions, linear normal forms, sibling alpha-equivalence",
+    design_ref="DESIGN.md section 4 C15",
+)
+
+
+def _mutants():
+    from selftest.mutate import Mutant as M
+    T = "training.py"
+    return [
+        M("parse-col-from-other", T, "'rlr_resume_cd': int(row['rlr_resume_cd'])", "'rlr_resume_cd': int(row['es_resume_cd'])",
+          "update_cache::column(rlr_resume_cd)"),
+        M("parse-lr-as-int", T, "'lr': float(row['lr'])", "'lr': int(float(row['lr']))", "column(lr)"),
+        M("drop-column-from-writer", T, "names = ['epoch', 'es_resume_cd', 'es_patience_cd', 'rlr_resume_cd', 'rlr_patience_cd', 'lr', 'train_met', 'val_met']",
+          "names = ['epoch', 'es_resume_cd', 'es_patience_cd', 'rlr_patience_cd', 'lr', 'train_met', 'val_met']", "G13/S1"),
+        M("reserved-missing", T, "'rlr_patience_cd', 'lr', 'train_met', 'val_met'}:", "'rlr_patience_cd', 'train_met', 'val_met'}:",
+          "reserved-names"),
+        M("seed-from-wrong-param", T, "'rlr_resume_cd': self.params.reduce_lr_burnin", "'rlr_resume_cd': self.params.reduce_lr_cooldown",
+          "seed(rlr_resume_cd)"),
+        M("hidden-state", T, "info['epoch'] = epoch\ninfo['val_met'] = val_met",
+          "info['epoch'] = epoch\nself._last_val = val_met\ninfo['val_met'] = val_met", "G13/S2"),
+        M("es-ref-drop-minus-1", T, "es_epoch = epoch - self.params.early_stopping_patience + info['es_patience_cd'] - 1",
+          "es_epoch = epoch - self.params.early_stopping_patience + info['es_patience_cd']", "es-reference-epoch"),
+        M("rlr-ref-uses-es-cd", T, "rlr_epoch = epoch - self.params.reduce_lr_patience + info['rlr_patience_cd'] - 1",
+          "rlr_epoch = epoch - self.params.reduce_lr_patience + info['es_patience_cd'] - 1", "rlr-reference-epoch"),
+        M("rlr-ref-after-decrement", T, "rlr_epoch = epoch - self.params.reduce_lr_patience + info['rlr_patience_cd'] - 1\nrlr_info = self.get_info(rlr_epoch)\nif info['rlr_resume_cd']:\n    info['rlr_resume_cd'] -= 1",
+          "if info['rlr_resume_cd']:\n    info['rlr_resume_cd'] -= 1\n    rlr_epoch = epoch - 1\n    rlr_info = self.get_info(rlr_epoch)", "rlr-"),
+        M("rlr-threshold-swapped", T, "max(rlr_info['val_met'] - val_met, 0) < self.params.reduce_lr_threshold",
+          "max(rlr_info['val_met'] - val_met, 0) < self.params.early_stopping_threshold", "G12/S4"),
+        M("es-pred-sign", T, "max(es_info['val_met'] - val_met, 0) < self.params.early_stopping_threshold",
+          "max(val_met - es_info['val_met'], 0) < self.params.early_stopping_threshold", "es-predicate"),
+        M("es-reset-wrong", T, "info['es_patience_cd'] = self.params.early_stopping_patience\nif self.params",
+          "info['es_patience_cd'] = self.params.early_stopping_burnin\nif self.params", "es-chain"),
+        M("continue-training-differs", T, "if self.params.early_stopping_threshold and (not info['es_patience_cd']):\n    cont = False\nreturn cont",
+          "if self.params.early_stopping_threshold and (not info['es_resume_cd']):\n    cont = False\nreturn cont", "stop-rule"),
+        M("lr-not-written-to-optimizer", T, "for param_group in optimizer.param_groups:\n    param_group['lr'] = new_lr", "pass",
+          "G10/S6"),
+        M("optimizer-gets-old-lr", T, "param_group['lr'] = new_lr", "param_group['lr'] = old_lr", "lr-write-through"),
+        M("new-lr-additive", T, "new_lr = old_lr * self.params.reduce_lr_factor", "new_lr = old_lr - self.params.reduce_lr_factor",
+          "new-lr=old*factor"),
+        M("fmt-key-mixup", T, "wr.writerow([self.fmt_dict[k].format(info[k]) for k in names])",
+          "wr.writerow([self.fmt_dict['lr'].format(info[k]) for k in names])", "row=fmt[k]"),
+        M("twin:rename-info", T, "info", "row_", "", -1, twin=True),
+    ]
+
+
+def selftest(ctx: Ctx):
+    from selftest.mutate import run_selftest
+    return run_selftest("C15", ctx.pkg.repo, _mutants(), floor=15)
